@@ -42,7 +42,7 @@ VARIABLES S, D, Fl, A, X, F,      \* node ids: started, completed, failed, activ
           ms, tick, inTick, ranTick, idle, edits, pendAct, p,
           stale,                  \* Watch/Alarm nodes whose registered interrupt outlived a reset of their flags (one clause at the
                                   \* reset; what the orphaned interrupt does afterwards is not judged again)
-          calls,                  \* <<call node, macro node>>: macro calls in progress
+          calls,                  \* <<call node, macro node, macro name>>: macro calls in progress
           defsEver,               \* macro nodes whose definition was registered in this run
           tainted,                \* a live edit lost interpretation state: the rest of this run is not a behaviour of the design
           seen,                   \* witnesses: antecedents of clauses that held at least once (vacuity guard)
@@ -152,9 +152,11 @@ FlagUpdate(s, e) ==
     CASE e.f = "started" /\ e.on ->
             LET isCall == e.cls = "CallMacroNode" /\ ~e.same /\ (\E d \in s.defs : d[1] = e.args)
                 m == IF isCall THEN (CHOOSE d \in s.defs : d[1] = e.args)[2] ELSE ""
-                others == {c[1] : c \in {x \in s.calls : x[2] = m}}
+                \* (by name as well: the definition a call runs is looked up when the call executes, one tick after it was flagged
+                \*  started, and may have been redefined in between)
+                others == {c[1] : c \in {x \in s.calls : x[2] = m \/ x[3] = e.args}}
             IN [s EXCEPT !.S = @ \cup {n}, !.injPending = @ \ {n},
-                         !.calls = IF isCall THEN @ \cup {<<n, m>>} ELSE @,
+                         !.calls = IF isCall THEN @ \cup {<<n, m, e.args>>} ELSE @,
                          !.stale = IF isCall /\ others # {} THEN @ \cup others \cup {n} ELSE @]
       [] e.f = "started" /\ ~e.on /\ ~LegitReset(e) -> s           \* reported by the state-reset clause; the monitor keeps what it knows
       [] e.f = "completed" /\ ~e.on /\ ~LegitReset(e) -> s
@@ -294,7 +296,8 @@ InjectClauses(e) ==
 Judge(clauses) == IF tainted THEN viols ELSE AddViols(viols, Failing(clauses), l)
 Orphan(e) == ({e.n} \cup SetOfSeq(e.conds)) \cap stale # {}
 (* two calls of one macro in progress at the same time (one from a Watch/Alarm): they share a single invocation of the body *)
-Overlapped(m) == Cardinality({c \in calls : c[2] = m}) >= 2
+NamesOf(m) == {c[3] : c \in {x \in calls : x[2] = m}}
+Overlapped(m) == Cardinality({c \in calls : c[2] = m \/ c[3] \in NamesOf(m)}) >= 2
 Shared(e) == \/ e.macro # "" /\ Overlapped(e.macro)
              \/ e.cls = "CallMacroNode" /\ \E c \in calls : c[1] = e.n /\ Overlapped(c[2])
 SharedClause == << <<"C41.overlapping-calls-share-one-invocation", FALSE>> >>
